@@ -318,6 +318,18 @@ impl Model for M {
 				art.received_s1 = Some(slate_to_json(&s));
 				art.received.push((s.id.to_string(), "default".into()));
 			}
+			if self.base == 4 {
+				// an incoming payment that has been finalised, mined and seen confirmed by A
+				let s = b.init_send(default_args(6 * G)).unwrap();
+				b.lock(&s).unwrap();
+				let s2 = a.receive(&s, None).unwrap();
+				let s3 = b.finalize(&s2).unwrap();
+				b.post(s3.tx_or_err().unwrap()).unwrap();
+				w.mine("M").unwrap();
+				a.refresh().unwrap();
+				art.received_s1 = Some(slate_to_json(&s));
+				art.received.push((s.id.to_string(), "default".into()));
+			}
 			if self.base == 3 {
 				// issued invoice, validly paid by B
 				let i1 = a.issue_invoice(IssueInvoiceTxArgs { amount: 3 * G, ..Default::default() }).unwrap();
@@ -719,7 +731,7 @@ pub fn run(_args: &[String]) -> i32 {
 	let mut all_labels: BTreeMap<String, u64> = BTreeMap::new();
 	let mut samples = vec![];
 	let mut exhaustive = true;
-	for base in 0..4 {
+	for base in 0..5 {
 		let m = M { base };
 		let caps = Caps {
 			max_depth: if thorough { 3 } else { 2 },
